@@ -87,6 +87,7 @@ package route
 //@   requires segOK(s)
 //@   modifies s.str, s.strOnce.fired
 //@   ensures result == segStr(s) && segOK(s) && len(result) >= 1 && result[0] == '/'
+//@   ensures[C05] s.strOnce.fired
 //@ func (*Segment).String$1
 //@   props C06
 //@   requires-captured s != nil
@@ -102,6 +103,7 @@ package route
 //@   requires routeOK(r) && segsOK()
 //@   modifies r.str, r.strOnce.fired, Segment.str, Segment.strOnce.fired
 //@   ensures result == routeStr(r) && routeOK(r) && segsOK()
+//@   ensures[C05] r.strOnce.fired
 //@ func (*Route).String$1
 //@   props C06
 //@   requires-captured r != nil && (forall k int :: 0 <= k && k < len(r.Segments) ==> r.Segments[k] != nil) && segsOK()
@@ -184,7 +186,7 @@ package route
 // ---------------------------------------------------------------------------
 
 //@ func (*baseTree).Match
-//@   props C07 C01 C02
+//@   props C07 C01 C02 C05
 //@   requires treeWF()
 //@   ensures[C01] result0 == specNext(t, trimLeftSlash(path), 0, header) && result2 == (result0 != nil)
 //@   ghost after matchNextSegment#0: params.raw = mapvals(params)
@@ -196,7 +198,7 @@ package route
 //@   ensures !result2 ==> result0 == nil && result1 == nil
 
 //@ func (*baseTree).matchNextSegment
-//@   props C07 C01 C02
+//@   props C07 C01 C02 C05
 //@   assert[C02] before matchSubtree#0: noSlash(path[next:next + i]) && path[next + i] == '/'
 //@   assert[C02] before matchLeaf#0: noSlash(path[next:])
 //@   requires treeWF()
@@ -207,7 +209,7 @@ package route
 //@   ensures result1 ==> result0 != nil
 
 //@ func (*baseTree).matchSubtree
-//@   props C07 C01 C02
+//@   props C07 C01 C02 C05
 //@   requires treeWF()
 //@   requires len(segment) <= next - 1 && segment == path[next - 1 - len(segment):next - 1] && path[next - 1] == '/'
 //@   ensures[C01] result0 == specSub(t, path, segment, next, header, 0) && result1 == (result0 != nil)
@@ -219,7 +221,7 @@ package route
 //@   ensures result1 ==> result0 != nil
 
 //@ func (*baseTree).matchLeaf
-//@   props C07 C01
+//@   props C07 C01 C05
 //@   requires treeWF() && params != nil
 //@   modifies params[*]
 //@   ensures result1 ==> result0 != nil
@@ -227,7 +229,7 @@ package route
 //@   loop 0 invariant[C01] firstLeaf(t, segment, header, 0) == firstLeaf(t, segment, header, rangeindex + 1)
 
 //@ func (*matchAllTree).matchAll
-//@   props C07 C01 C02
+//@   props C07 C01 C02 C05
 //@   requires treeWF()
 //@   ensures[C01] result0 == specAll(t, path, next, header, 1) && result1 == (result0 != nil)
 //@   loop 0 invariant[C01] specAll(t, path, old(next), header, 1) == specAll(t, path, next, header, captured)
@@ -243,7 +245,7 @@ package route
 //@   loop 0 invariant 0 <= next && next <= len(path) && treeWF()
 
 //@ func (*matchAllLeaf).matchAll
-//@   props C07 C01 C09 C02
+//@   props C07 C01 C09 C02 C05
 //@   requires treeWF()
 //@   ensures[C01,C09] result == ((l.capture <= 0 || l.capture >= countSlash(path[next - 1:]) + 1) && hdrOK(&l.baseLeaf, header))
 //@   ensures[C02] result ==> params[l.bind] == segment + "/" + path[next:]
@@ -253,7 +255,7 @@ package route
 //@   ensures treeWF()
 
 //@ func (*regexTree).match
-//@   props C07 C01 C02
+//@   props C07 C01 C02 C05
 //@   requires treeWF() && params != nil
 //@   modifies params[*]
 //@   ensures[C01] result == (reLen(t.regexp, segment) == len(t.binds) + 1)
@@ -263,7 +265,7 @@ package route
 //@   loop 0 invariant[C02] forall k string :: !(exists i int :: 0 <= i && i <= rangeindex && t.binds[i] == k) ==> params[k] == old(params[k])
 
 //@ func (*regexLeaf).match
-//@   props C07 C01 C09 C02
+//@   props C07 C01 C09 C02 C05
 //@   requires treeWF() && params != nil
 //@   modifies params[*]
 //@   ensures[C01,C09] result == (reLen(l.regexp, segment) >= len(l.binds) + 1 && hdrOK(&l.baseLeaf, header))
@@ -273,7 +275,7 @@ package route
 //@   loop 0 invariant[C02] forall k string :: !(exists i int :: 0 <= i && i <= rangeindex && l.binds[i] == k) ==> params[k] == old(params[k])
 
 //@ func (*HeaderMatcher).Match
-//@   props C07 C09
+//@   props C07 C09 C05
 //@   modifies nothing
 //@   ensures[C09] result == hmMatch(m, header)
 //@   loop 0 invariant[C09] forall name string :: visited(name) ==> has(m.matches, name) && hdrGet(header, name) != "" && reMatch(m.matches[name], hdrGet(header, name))
@@ -455,7 +457,7 @@ package route
 //@     ite(stopAt(r, j, wo), routeSkel(r, j - 1, wo), routeSkel(r, j - 1, wo) + segSkel(r.Segments[j - 1], len(r.Segments[j - 1].Elements))))
 
 //@ func (*baseLeaf).URLPath
-//@   props C12
+//@   props C12 C05
 //@   requires treeWF() && live(l)
 //@   modifies nothing
 //@   assert before Replace#0: buf.content == routeSkel(l.route, len(l.route.Segments), withOptional)
